@@ -74,6 +74,11 @@ class C03(PropCheck):
         out = []
         need = [l for l, io, mo in triples if mo is None]
         got = dict(zip(need, run_driver(need))) if need else {}
+        # the documented behaviour itself: `speccfg` evaluates Cfg.docStep (lean/NrfModel/Spec/Cfg.lean, written from
+        # docs/ + data sheet) on single-object sessions made of C03 calls; `bad-op` = outside its alphabet/domain
+        slines = [l for l, io, mo in triples
+                  if l.startswith("rf ") and " ; ".join(l.split(" ; ")[:2]).endswith("new a rf24 0 ; a enter")]
+        sgot = dict(zip(slines, run_driver(["speccfg" + l[2:] for l in slines]))) if slines else {}
         for l, io, mo in triples:
             if not l.startswith("rf "):
                 continue
@@ -82,6 +87,7 @@ class C03(PropCheck):
             iops, mops = parse_out(io), parse_out(mo)
             plus = l.split()[2] == "1"
             suspended = False  # non-plus carrier-wave test documents altered settings until `with`
+            seen_k2 = False
             for k, (name, a) in enumerate(zip(opnames, iops)):
                 call = " ".join(name.split()[-len(name.split()) + (4 if k == 0 else 0):]) if k == 0 else name
                 if "start_carrier_wave" in name and not plus:
@@ -102,6 +108,19 @@ class C03(PropCheck):
                             break
                     if what is None and a["obj"].get("al") != str(int(r.get("aw", "0")) + 2):
                         what = f"cached address length {a['obj'].get('al')} vs SETUP_AW {r.get('aw')}"
+                sp = sgot.get(l)
+                if what is None and sp and sp != "bad-op" and k >= 2:
+                    sops = parse_out(sp)
+                    if k < len(sops) and sops[k]["radios"]:
+                        m = sops[k]
+                        if a["res"] != m["res"]:
+                            what = f"returns {a['res']}, the documentation (Cfg.docStep) gives {m['res']}"
+                        else:
+                            for ck in CFG_KEYS + ["ce"]:
+                                if r.get(ck) != m["radios"][0].get(ck):
+                                    what = (f"register {ck}={r.get(ck)} after the call, the documented encoding "
+                                            f"(Cfg.docStep) is {m['radios'][0].get(ck)}")
+                                    break
                 if what is None and k < len(mops) and mops[k]["radios"]:
                     m = mops[k]
                     if a["res"] != m["res"]:
@@ -112,7 +131,14 @@ class C03(PropCheck):
                                 what = f"register {ck}={r.get(ck)} after the call, documented encoding gives {m['radios'][0].get(ck)}"
                                 break
                 if what:
-                    out.append(Finding(l, f"op {k} `{call}`: {what}", {"op_index": k, "op": call, "impl_op": a["raw"][:400]}))
+                    det = {"op_index": k, "op": call, "impl_op": a["raw"][:400]}
+                    if name.endswith("get is_plus_variant") and not plus:
+                        det["class"] = "nonplus-variant-misdetected"   # known finding K2 (same root cause as K1)
+                        if not seen_k2:
+                            out.append(Finding(l, f"op {k} `{call}`: {what}", det))
+                            seen_k2 = True
+                        continue    # keep judging the rest of the session
+                    out.append(Finding(l, f"op {k} `{call}`: {what}", det))
                     break
         return out
 
